@@ -83,6 +83,14 @@ pub enum BuiltInFunction {
     VecClone,
 }
 
+/// The text after a `0x` / `0b` prefix, when the prefix is one: a sign stands before a number,
+/// never between the prefix and the digits, so `0x-1F` and `0b+1` are not numbers (the integer
+/// parsers of `std` would read a sign of their own).
+fn strip_radix_prefix<'a>(s: &'a str, prefix: &str) -> Option<&'a str> {
+    s.strip_prefix(prefix)
+        .filter(|digits| !digits.starts_with(['+', '-']))
+}
+
 type BuiltInFunctionReturnBundle = (
     Option<Primitive>,
     Option<Box<dyn RuntimeExecutionBridgeNotifier>>,
@@ -630,7 +638,7 @@ impl BuiltInFunction {
                     unreachable!()
                 };
 
-                let parsed = if let Some(hex) = s.strip_prefix("0x") {
+                let parsed = if let Some(hex) = strip_radix_prefix(s, "0x") {
                     i32::from_str_radix(hex, 16)
                 } else {
                     s.parse::<i32>()
@@ -650,7 +658,7 @@ impl BuiltInFunction {
                     unreachable!()
                 };
 
-                let parsed = if let Some(hex) = s.strip_prefix("0x") {
+                let parsed = if let Some(hex) = strip_radix_prefix(s, "0x") {
                     i128::from_str_radix(hex, 16)
                 } else {
                     s.parse::<i128>()
@@ -684,7 +692,7 @@ impl BuiltInFunction {
 
                 // `0x` announces hexadecimal digits: in any other radix it is part of the text
                 // (`0` and `x` are digits in radix 34 and up, and not a number below that)
-                let s = match s.strip_prefix("0x") {
+                let s = match strip_radix_prefix(s, "0x") {
                     Some(hex) if radix == 16 => hex,
                     _ => s,
                 };
@@ -717,7 +725,7 @@ impl BuiltInFunction {
 
                 // `0x` announces hexadecimal digits: in any other radix it is part of the text
                 // (`0` and `x` are digits in radix 34 and up, and not a number below that)
-                let s = match s.strip_prefix("0x") {
+                let s = match strip_radix_prefix(s, "0x") {
                     Some(hex) if radix == 16 => hex,
                     _ => s,
                 };
@@ -764,8 +772,8 @@ impl BuiltInFunction {
                     unreachable!()
                 };
 
-                let (s, radix) = if s.starts_with("0b") {
-                    (s.get(2..).unwrap_or_default(), 2)
+                let (s, radix) = if let Some(bits) = strip_radix_prefix(s, "0b") {
+                    (bits, 2)
                 } else {
                     (s.as_str(), 10)
                 };
